@@ -1245,9 +1245,10 @@ def reduce_call_of(ctx, b, r):
 def binary_op_is(ctx, op, names):
     """is `op` (fn item or closure) the binary operator `names` applied to its two arguments in order"""
     x, y = P('x'), P('y')
-    if op[0] == 'fn':
+    if op[0] == 'fn' and op[1] not in ctx.facts.bodies:
         return sg(op[1]) in names
-    if op[0] == 'closure':
+    if op[0] in ('closure', 'fn'):
+        # a closure literal, or a function of the crate (`fn add<T: Add>(x: T, y: T) -> T { x + y }`)
         got = eval_binary_closure(ctx, op, x, y)
         if got is not None and got[0] == 'call' and term_callee(got) in names and tuple(got[2]) == (x, y):
             return True
